@@ -200,10 +200,10 @@ class DataFrameSchemaBackend(PandasSchemaBackend):
         check_passed = []
         # schema-component-level checks
         for schema_component in schema_components:
-            # make sure the schema component mutations are reverted after
-            # validation
-            _orig_dtype = schema_component.dtype
-            _orig_coerce = schema_component.coerce
+            # apply the overrides to a shallow copy so that the component held
+            # by the schema is never modified, not even temporarily: another
+            # thread may be validating with the same schema.
+            schema_component = copy.copy(schema_component)
 
             try:
                 if schema.dtype is not None:
@@ -240,10 +240,6 @@ class DataFrameSchemaBackend(PandasSchemaBackend):
                         for schema_error in err.schema_errors
                     ]
                 )
-            finally:
-                # revert the schema component mutations
-                schema_component.dtype = _orig_dtype
-                schema_component.coerce = _orig_coerce
 
         assert all(check_passed)
         return check_results
